@@ -6,12 +6,14 @@ From VF Require Import Base Keyring Raw.
 (* keys 1..4 have a valid length, everything else does not *)
 Definition valid_pool (k : N) : bool := (1 <=? k)%N && (k <=? 4)%N.
 
-(* cfg: [npre; pre keys...; primary (0 = empty)] ; ops: [code; key] ;
+(* cfg: [npre; pre keys...; primary (0 = empty)] ; ops: [code; key] ; [0; key; n] = AddKey key from n goroutines at once: must
+   leave what one AddKey key leaves ;
    obs per op: [res; nret; ret...; nheld; (len; keys...) per previously returned slice] ; obs 0: constructor result *)
 Definition dec_op (v : list int) : option kop :=
   match v with
   | [c; k] => if Uint63.eqb c 0 then Some (KAdd (ni k)) else if Uint63.eqb c 1 then Some (KUse (ni k))
               else if Uint63.eqb c 2 then Some (KRemove (ni k)) else None
+  | [c; k; _] => if Uint63.eqb c 0 then Some (KAdd (ni k)) else None
   | [c] => if Uint63.eqb c 3 then Some KGetKeys else if Uint63.eqb c 4 then Some KGetPrimary else None
   | _ => None
   end.
